@@ -777,6 +777,31 @@ func (l *vC01Lab) install(kind, target string) bool {
 				m.Answer = append(m.Answer, c)
 			}
 		}
+	case "parent-denial-nxdomain", "parent-denial-nodata": // a denial in the PARENT's name, built from the parent's genuine SOA and its NSEC at the cut
+		var pz *vC01LZone
+		for _, z := range l.zones {
+			if z.cuts[strings.ToLower(target)] != nil {
+				pz = z
+			}
+		}
+		if pz == nil || tz == nil {
+			return false
+		}
+		f = func(s *vC01LServer, z *vC01LZone, q dns.Question, m *dns.Msg) {
+			if z != tz || q.Qtype == dns.TypeDNSKEY || q.Qtype == dns.TypeDS || q.Qtype == dns.TypeNS || strings.HasPrefix(strings.ToLower(q.Name), "ns.") {
+				return
+			}
+			atCut := strings.EqualFold(q.Name, tz.name)
+			if (kind == "parent-denial-nodata") != atCut {
+				return
+			}
+			m.Answer = nil
+			m.Rcode = dns.RcodeSuccess
+			if !atCut {
+				m.Rcode = dns.RcodeNameError
+			}
+			m.Ns = append(s.soa(pz), s.nsec(pz, tz.name)...)
+		}
 	case "inject-foreign":
 		f = func(s *vC01LServer, z *vC01LZone, q dns.Question, m *dns.Msg) {
 			if z == tz && len(m.Answer) > 0 && q.Qtype == dns.TypeA {
@@ -867,7 +892,7 @@ func (l *vC01Lab) dataOK(m *dns.Msg, scn vC01Scn) bool {
 			return false
 		}
 	}
-	if scn.expect == dns.RcodeSuccess && scn.qtype == dns.TypeA && len(m.Answer) == 0 {
+	if scn.expect == dns.RcodeSuccess && (scn.qtype == dns.TypeA || scn.qtype == dns.TypeSOA) && len(m.Answer) == 0 {
 		return false // the data was withheld
 	}
 	return true
@@ -886,11 +911,11 @@ func TestVerifC01Lab(t *testing.T) {
 	}
 	queries := func(zone string) []tq {
 		return []tq{{"www." + zone, dns.TypeA, 0}, {"alias." + zone, dns.TypeA, 0}, {"nx." + zone, dns.TypeA, 3}, {"www." + zone, dns.TypeAAAA, 0},
-			{"foo.wild." + zone, dns.TypeA, 0}, {"x.dn." + zone, dns.TypeA, 0}, {"real.wild." + zone, dns.TypeA, 0}}
+			{"foo.wild." + zone, dns.TypeA, 0}, {"x.dn." + zone, dns.TypeA, 0}, {"real.wild." + zone, dns.TypeA, 0}, {zone, dns.TypeSOA, 0}}
 	}
 	topos := []string{"separate", "separate", "insecure-child", "wrongds", "shared-secure", "shared-secure", "shared-insecure", "shared-island"}
 	tampers := []string{"none", "none", "strip-sigs", "alter-a", "expired", "signer-name", "bitflip", "labels", "forged-untrusted-key", "dnskey-extra-key",
-		"ds-swap", "ds-drop", "nsec-drop", "nxdomain-forged", "inject-foreign", "island-hijack", "no-anchor", "wildcard-replay", "wildcard-replay-decoy"}
+		"ds-swap", "ds-drop", "nsec-drop", "nxdomain-forged", "inject-foreign", "island-hijack", "no-anchor", "wildcard-replay", "wildcard-replay-decoy", "parent-denial-nxdomain", "parent-denial-nodata"}
 	for i := 0; i < n; i++ {
 		topo := topos[i%len(topos)]
 		tam := tampers[(i/len(topos)+i)%len(tampers)]
@@ -911,6 +936,12 @@ func TestVerifC01Lab(t *testing.T) {
 		}
 		if tam == "wildcard-replay" || tam == "wildcard-replay-decoy" {
 			q = qs[6]
+		}
+		if tam == "parent-denial-nodata" {
+			q = qs[7]
+		}
+		if tam == "parent-denial-nxdomain" {
+			q = qs[0]
 		}
 		if tam == "nxdomain-forged" || tam == "alter-a" || tam == "forged-untrusted-key" || tam == "dnskey-extra-key" || tam == "island-hijack" || tam == "ds-swap" || tam == "ds-drop" || tam == "inject-foreign" || tam == "expired" {
 			q = qs[0]
